@@ -348,10 +348,12 @@ def check_property(pid, tier, seed):
                 undecided.append(f"LOST-ANCHOR: clause {r} not found in contracts/")
             elif r in main["failed_clauses"]:
                 (supporting if r in sup_refs else failed).append(("clause", r, main["failed_clauses"][r][0]))
+        nec_fns = set(r.split("|")[0] for r in nec_refs)
         for k, v in main["failed_clauses"].items():
             fn, lab = k.split("|", 1)
             if lab.startswith("trait:") and fn in needed_fns:
-                failed.append(("clause", k, v[0]))
+                # a trait-level clause (declared on the prelude trait) of a function this alternative only lists as supporting stays supporting
+                (failed if fn in nec_fns else supporting).append(("clause", k, v[0]))
         for th in alt.get("theorems", []):
             if th not in main["theorem_names"]:
                 undecided.append(f"LOST-ANCHOR: theorem {th} missing from verus/theorems.rs")
